@@ -8,7 +8,7 @@ import NriModel.Lemmas.Ledger
 import NriModel.Ledger
 
 namespace Nri.Result
-open Nri.Api Nri.Ledger
+open Nri.NApi Nri.Ledger
 
 /-! ### the request kind never changes -/
 
@@ -500,7 +500,7 @@ theorem run_keeps (st st' : State) (rs : List (Plugin × Option Response))
 end Nri.Result
 
 namespace Nri.Result
-open Nri.Api Nri.Ledger
+open Nri.NApi Nri.Ledger
 
 /-- splitting a list at an index that holds `x` -/
 theorem split_at_getElem? {α : Type} (l : List α) (i : Nat) (x : α) (h : l[i]? = some x) :
@@ -524,7 +524,7 @@ theorem getElem?_append_cons_length {α : Type} (pre post : List α) (x : α) (n
 end Nri.Result
 
 namespace Nri.Result
-open Nri.Api Nri.Ledger
+open Nri.NApi Nri.Ledger
 
 /-! ### where owners and conflicts come from -/
 
